@@ -1,11 +1,18 @@
 /-
 C07 — generate is total: no panic, abort or hang on any input text.
-(first layer: the pieces that are total outright — the bracket scan and the
-character handler in the main state never panic; `create_unique_identifier`'s
-loop is bounded by the number of names in use)
+Stage by stage, for every input text:
+  * `C07_tokenize_total`  — the tokenizer returns tokens or a `Lex` error: none of its three source slices
+    can be off a character boundary or out of range (from `tokenize = Spec.scan`);
+  * `C07_parse_no_panic`  — the table-driven front-end parser never panics (no `unwrap` on an empty stack, no
+    failed `try_from`) on any token list (from the kernel-checked validity of the `parser.rs` tables);
+  * `C07_cst_to_ast_total` — the CST→AST conversion succeeds on every CST the parser returns.
+The stages after that (validation → emission) are covered by the correspondence run only (outcome class of
+every stage under `catch_unwind` with a watchdog, compared with the model, whose panics are explicit).
 -/
 import KikiVerif.Model.Tokenize
 import KikiVerif.Model.Emit
+import KikiVerif.Properties.C08
+import KikiVerif.Properties.C09
 
 namespace KikiVerif.C07
 open KikiVerif KikiVerif.Tokenize KikiVerif.Text
@@ -34,7 +41,23 @@ theorem C07_handleMain_no_panic (tk : Tk) (c : Char) (i : Nat) (s : String) :
   repeat' split
   all_goals (intro h; cases h)
 
+theorem C07_tokenize_total (src : Str) :
+    (∃ ts, Tokenize.tokenize src = .ok ts) ∨ (∃ j c, Tokenize.tokenize src = .err (.lex j c)) :=
+  C08.C08_tokenize_total src
+
+theorem C07_parse_no_panic (toks : List Token) (fuel : Nat) (out : FrontParse.ParseOut)
+    (h : FrontParse.parse toks fuel = some out) : (match out with | .panic => False | _ => True) :=
+  (C09.C09_parse_correct toks fuel out h).1
+
+theorem C07_cst_to_ast_total (toks : List Token) (fuel : Nat) (t : FrontParse.CTree)
+    (h : FrontParse.parse toks fuel = some (.ok t)) : ∃ ast, FrontParse.cstToAst t = some ast := by
+  obtain ⟨ast, h1, _⟩ := C09.C09_flatten toks fuel t h
+  exact ⟨ast, h1⟩
+
 end KikiVerif.C07
 
 #print axioms KikiVerif.C07.bracketScan_no_panic
 #print axioms KikiVerif.C07.C07_handleMain_no_panic
+#print axioms KikiVerif.C07.C07_tokenize_total
+#print axioms KikiVerif.C07.C07_parse_no_panic
+#print axioms KikiVerif.C07.C07_cst_to_ast_total
